@@ -9,6 +9,10 @@ CLAIMED = {
          "Every input of both conversions is enumerated in both tiers and compared bit-for-bit with an independent reference; for this finite domain generated-input search is complete, so a pass means the property holds for the compiled configuration.",
          "Trusts the reference codec (validated against a second, structurally different codec on 2.1e7 stratified inputs each run), the host FPU's double arithmetic and the compilers; covers the default (lookup-table) configuration - other back-ends are C02.",
          "DESIGN.md section 5 C01"),
+ "C03": ("exhaustive enumeration of half patterns / boundary-pair products plus seeded random pairs (all 2^32 ordered pairs x 4 ops in the thorough tier), oracle = independent binary16 codec around one float operation; brute-force validation of numeric_limits/HALF_* against behaviour",
+         "All single-operand facts (unary minus, classification, text round trip, round(n) for 19 values of n, limits) are decided exhaustively in both tiers; binary compound arithmetic is exhaustive over a 4096-pattern boundary set (1.7e7 pairs x 4 ops), 2e7 random pairs and every half x ~1200 boundary floats in quick, and over all 2^32 pairs in thorough; halfFunction is checked entry-by-entry for generated domain tuples.",
+         "Trusts the reference codec of C01, host float arithmetic (one IEEE operation in binary32) and libc strtod/printf for the decimal-digit claims. NaN results are compared by NaN-ness only.",
+         "DESIGN.md section 5 C03"),
 }
 PENDING_REASON = "check under construction in this session (harness not yet committed); will be claimed once it passes on the unchanged tree"
 def main():
